@@ -368,6 +368,88 @@ mod verif_c11_tlb {
         }
     }
 
+    // `Invlpgb::new()` is where "the processor's per-request maximum" of the statement comes from:
+    // CPUID Fn8000_0008 (APM vol. 3, E.4.7): EBX[3] INVLPGB/TLBSYNC supported, EBX[21] INVLPGB
+    // nested-page support, EDX[15:0] maximum page count; Fn8000_000A: EBX = number of ASIDs.
+    // `core::arch::x86_64::__cpuid` is replaced by a stub that answers each leaf with a symbolic
+    // result and records the leaves asked (the instruction itself is outside the abstract machine).
+    static mut CPUID_8: [u32; 4] = [0; 4]; // eax, ebx, ecx, edx of leaf 0x8000_0008
+    static mut CPUID_A: [u32; 4] = [0; 4]; // of leaf 0x8000_000a
+    static mut CPUID_OTHER_LEAF: bool = false;
+    fn cpuid_stub(leaf: u32) -> core::arch::x86_64::CpuidResult {
+        let r = unsafe {
+            if leaf == 0x8000_0008 {
+                CPUID_8
+            } else if leaf == 0x8000_000a {
+                CPUID_A
+            } else {
+                CPUID_OTHER_LEAF = true;
+                [kani::any(), kani::any(), kani::any(), kani::any()]
+            }
+        };
+        core::arch::x86_64::CpuidResult { eax: r[0], ebx: r[1], ecx: r[2], edx: r[3] }
+    }
+    fn any_cpuid() {
+        unsafe {
+            CPUID_8 = [kani::any(), kani::any(), kani::any(), kani::any()];
+            CPUID_A = [kani::any(), kani::any(), kani::any(), kani::any()];
+            CPUID_OTHER_LEAF = false;
+        }
+    }
+
+    //@ obligation C11 C11.Invlpgb_new.limits_are_what_cpuid_reports
+    #[kani::proof]
+    #[kani::stub(core::arch::x86_64::__cpuid, cpuid_stub)]
+    fn c11_invlpgb_new_decodes_cpuid() {
+        verif_hw::reset_symbolic();
+        any_cpuid();
+        kani::assume(verif_hw::m().cs & 3 == 0);
+        let before = *verif_hw::m();
+        kani::cover!(true, "c11_invlpgb_new_decodes_cpuid: reachable");
+        let r = Invlpgb::new();
+        let (l8, la) = unsafe { (CPUID_8, CPUID_A) };
+        let supported = l8[1] & (1 << 3) != 0;
+        assert!(
+            r.is_some() == supported,
+            "C11.Invlpgb_new.limits_are_what_cpuid_reports: Some iff CPUID Fn8000_0008 EBX[3]"
+        );
+        if let Some(i) = r {
+            assert!(
+                i.invlpgb_count_max() == (l8[3] & 0xffff) as u16,
+                "C11.Invlpgb_new.limits_are_what_cpuid_reports: per-request maximum == Fn8000_0008 EDX[15:0]"
+            );
+            assert!(
+                i.tlb_flush_nested() == (l8[1] & (1 << 21) != 0),
+                "C11.Invlpgb_new.limits_are_what_cpuid_reports: nested support == Fn8000_0008 EBX[21]"
+            );
+            assert!(
+                i.nasid() == la[1],
+                "C11.Invlpgb_new.limits_are_what_cpuid_reports: number of ASIDs == Fn8000_000A EBX"
+            );
+        }
+        assert!(
+            !unsafe { CPUID_OTHER_LEAF },
+            "C11.Invlpgb_new.limits_are_what_cpuid_reports: no other CPUID leaf is consulted"
+        );
+        assert!(
+            same_registers(&before, verif_hw::m()) && verif_hw::count(Kind::Invlpgb) == 0 && verif_hw::count(Kind::Tlbsync) == 0,
+            "C11.Invlpgb_new.limits_are_what_cpuid_reports: nothing is flushed, no register changes"
+        );
+    }
+
+    //@ obligation C11 C11.Invlpgb_new.panics_outside_ring0
+    #[kani::proof]
+    #[kani::should_panic]
+    #[kani::stub(core::arch::x86_64::__cpuid, cpuid_stub)]
+    fn c11_invlpgb_new_panics_outside_ring0() {
+        verif_hw::reset_symbolic();
+        any_cpuid();
+        kani::assume(verif_hw::m().cs & 3 != 0);
+        kani::cover!(true, "c11_invlpgb_new_panics_outside_ring0: reachable");
+        let _ = Invlpgb::new();
+        returned_on_invalid_input();
+    }
+
     //@ obligation C11 C11.Invlpgb_tlbsync.one_tlbsync
     #[kani::proof]
     fn c11_invlpgb_tlbsync() {
